@@ -38,7 +38,7 @@ func isKnownPure(key string) bool {
 func (e *Enc) calleeOf(c ssa.CallInstruction) (*ssa.Function, string) {
 	com := c.Common()
 	if com.IsInvoke() {
-		recv := com.Value.Type()
+		recv := types.Unalias(com.Value.Type())
 		name := com.Method.Name()
 		if n, ok := recv.(*types.Named); ok {
 			pkg := ""
